@@ -63,7 +63,7 @@ pub fn run(args: &[String]) -> i32 {
     }
     // random real texts: multi-byte characters at the window edge and inside the 30-byte look-back, nested brackets, headers
     let mut rng = Rng::new(seed);
-    let pieces = ["。", "？", "！", "!", "?", "…", ".", "．", "・", "・・・", ",", "、", "（", "）", "「", "」", "(", ")", "a", "1", "１", "一", "と", "や", "の", "っ", "です", "あ", "いう", "漢字", " ", "　", "<br>", "<BR><br>", "\n", "𠮷", "é", "な。な", "x。", "3.14", "1.", "ｱ"];
+    let pieces = ["。", "？", "！", "!", "?", "…", ".", "．", "・", "・・・", ",", "、", "（", "）", "「", "」", "(", ")", "a", "1", "１", "一", "と", "や", "の", "っ", "です", "あ", "いう", "漢字", " ", "　", "<br>", "<BR><br>", "\n", "𠮷", "é", "な。な", "x。", "3.14", "1.", "ｱ", "\\", "/", "-", "^", "]"];
     let lexes: Vec<Vec<String>> = vec![vec![], vec!["。".into()], vec!["な。な".into(), "。".into()], vec!["あ。".into(), "いう。あい".into(), "x。".into()], vec!["éééééééééééé!é".into(), "。".into(), "abcdefghijkl!mn".into()]];
     let fixtures = ["あいうえお。", "あいう。えお。", "あいう。。えお。", "あいうえお", "あいう えお。", "あいう.えお", "3.141", "四百十.〇", "あいうえお!??", "あ（いう。え）お", "（あ（いう）。え）お", "あ（いう）。えお",
         "1. あいう。えお", "あいう?えお", "あいう?)えお", "あいう?,えお", "あいう?です。", "あいう?って。", "あいう?という。", "あいう?の？です。", "1.と2.が。", "1.やb.から。", "1.の12.が。", "ばな。なです。",
